@@ -321,9 +321,11 @@ func (r *recorder) OnFloat64(f float64) error { return r.add(numU(kFloat64, math
 type refRecorder struct{ *recorder }
 
 func (r refRecorder) OnStringRef(s []byte) error {
+	touchCap(s)
 	return r.add(event{kind: evStrRef, s: append([]byte(nil), s...)})
 }
 func (r refRecorder) OnKeyRef(s []byte) error {
+	touchCap(s)
 	return r.add(event{kind: evKeyRef, s: append([]byte(nil), s...)})
 }
 
@@ -576,7 +578,7 @@ func playEvent(v structform.ExtVisitor, e event) error {
 		return playScalar(v, e.sc)
 	case evStrRef:
 		// by-reference contract: the bytes are only valid during the call - overwrite them afterwards
-		b := append([]byte(nil), e.s...)
+		b := append(make([]byte, 0, len(e.s)+1), e.s...) // like a parser's sub-slice: never nil, even when empty
 		err := v.OnStringRef(b)
 		for i := range b {
 			b[i] = 0xAA
@@ -585,7 +587,7 @@ func playEvent(v structform.ExtVisitor, e event) error {
 	case evKey:
 		return v.OnKey(string(e.s))
 	case evKeyRef:
-		b := append([]byte(nil), e.s...)
+		b := append(make([]byte, 0, len(e.s)+1), e.s...) // like a parser's sub-slice: never nil, even when empty
 		err := v.OnKeyRef(b)
 		for i := range b {
 			b[i] = 0xAA
